@@ -264,6 +264,15 @@ pub fn run(tier: &str) -> Result<Report, String> {
                 }
             }
         }
+        // a unary operator as (first token of) an operand of a binary operator: the minimal rendering drops the parentheses
+        // around it (`AX a EU b`, `a & EF b`), so the documented priorities decide
+        for u in ["~", "EX", "AX", "EF", "AF", "EG", "AG"] {
+            for o in ["&", "|", "^", "=>", "<=>", "EU", "AU", "EW", "AW"] {
+                for t in [format!("({u} a) {o} a"), format!("a {o} ({u} a)"), format!("({u} a) {o} ({u} (~ a))"), format!("!{{x}}: (({u} {{x}}) {o} a)")] {
+                    fs.push(crate::formulas::f(&t, &ctx.user));
+                }
+            }
+        }
         let mut ge = Gen::new(Alphabet::extended(1, 2, 1, 1));
         fs.extend(ge.closed_up_to(3).into_iter().filter(|f| f.uses_wild_or_dom()));
         let res: Vec<(u64, u64, Option<Violation>)> = fs
